@@ -14,3 +14,12 @@ func memoDebug(ctx *core.Ctx, r *core.Report) {
 		r.Infof("memo site %s %s.%s at %s", core.FnName(s.fn), s.owner.Obj().Name(), s.field, ctx.Pos(s.lookup.Pos()))
 	}
 }
+
+func textCmpDebug(ctx *core.Ctx, r *core.Report) {
+	if os.Getenv("VERIF_DEBUG_MEMO") == "" {
+		return
+	}
+	for _, bo := range valueTextComparisons(ctx, ctx.RepoFuncs()) {
+		r.Infof("value-text comparison in %s at %s: %s", core.FnName(bo.Parent()), ctx.Pos(bo.Pos()), bo.String())
+	}
+}
